@@ -6,13 +6,19 @@ from lib import coq_term_str as S, coq_list as L, coq_nat as N
 THEOREMS = ['C19_write_tokens_yield', 'C19_recons_token_sound', 'C19_recons_token_roundtrip_partial', 'C19_recons_token_roundtrip',
             'C19_match_exists', 'C19_matcher_accepts', 'C19_text', 'C19_H_relex_refuted', 'C19_example']
 GEN_DEPS = []
-RULE = ('seeded random grammars of the supported class (statement / expression / list skeletons and prefix-guarded random '
-        'rules, with ?rule, _rule, !rule, aliases, * + ? [] operators, anonymous / named / _named string tokens, regexp '
-        'terminals NAME NUMBER, %ignore whitespace), compiled by lark for lalr and earley; random sentences of the compiled '
-        'rules; each case = one grammar with its derived tree-matching rules and every match_tree / write_tokens call of '
-        'reconstruct() on each parsed sentence; a wide stream adds grammars outside the class (rule derivation and '
-        'match/write correspondence only); exotic stream = fixed witnesses F12-F15; non-trivial = distinct (grammar, '
-        'sentence) whose reconstruction re-inserted >= 1 filtered token and used >= 1 inlined match node')
+RULE = ('seeded random grammars of the supported class (statement / expression / list / program skeletons and prefix-guarded '
+        'random rules, with ?rule, _rule, !rule, aliases, * + ? [] operators, anonymous / named / _named string tokens, '
+        'string literals shared between !rules (kept) and ordinary rules (filtered), operators factored into !op rules, '
+        'prefix operators re-using binary literals, regexp terminals NAME NUMBER, %ignore whitespace), compiled for lalr and '
+        'earley; random sentences of the compiled rules plus accepted concatenations of them (several node kinds in one '
+        'tree); ONE Reconstructor per grammar reconstructs the whole sequence of trees, and one or two further '
+        'Reconstructors see the same trees in other orders (another tree first): the round-trip oracle is evaluated on every '
+        'tree of every history, the result for a tree must not depend on the history, and TreeMatcher.rules is compared with '
+        'the model after every reconstruct call; each case = one grammar with its derived tree-matching rules and every '
+        'match_tree / write_tokens call of the first sequence; a wide stream adds grammars outside the class (rule '
+        'derivation and match/write correspondence only); exotic stream = fixed witnesses of the listed findings; '
+        'non-trivial = distinct (grammar, sentence) whose reconstruction re-inserted >= 1 filtered token and used >= 1 '
+        'inlined match node')
 TRUSTED_BASE = ['the parser side is a specification (derivation trees of parser.rules, ChildFilter/ExpandSingleChild shape), '
                 'not a model of the LALR/Earley engines (that is C01-C03); match_tree is modelled as an arbitrary function '
                 'returning supported matches - each recorded match is validated against the model grammar by the harness',
@@ -147,6 +153,9 @@ class Obs:
         rfr = {str(k): [snap_rrule(r) for r in v] for k, v in self.rec.rules_for_root.items() if v}
         return rules, rfr
 
+    def rules_now(self):
+        return [snap_rrule(r) for r in self.rec.rules]
+
     def run(self, tree):
         """-> (matches, items, text, exception-name)"""
         self.matches = []
@@ -158,7 +167,10 @@ class Obs:
         # repeat the matches); the text is also taken from the public entry point below
         ms = list(self.matches)
         self.matches = []
-        text = self.rec.reconstruct(tree)
+        try:
+            text = with_timeout(20, self.rec.reconstruct, tree)
+        except Exception as e:   # noqa
+            return ms, None, None, type(e).__name__
         return ms, items, text, None
 
 
@@ -461,8 +473,12 @@ def gen_expr(rng, gb):
         nxt = chain[i + 1]
         alts = []
         q = rng.random() < 0.8
-        for k in range(rng.randint(1, 2)):
-            op = gb.lit(ops[2 * i + k])
+        factored = rng.random() < 0.35
+        if factored:
+            # the operators of this level as a keep-all-tokens rule: the tree keeps which operator it was
+            gb.rule('!op%d' % i, [gb.lit(ops[2 * i]), gb.lit(ops[2 * i + 1])])
+        for k in range(1 if factored else rng.randint(1, 2)):
+            op = ('op%d' % i) if factored else gb.lit(ops[2 * i + k])
             al = (' -> %s_%d' % (n, k)) if rng.random() < 0.5 else ''
             if rng.random() < 0.8:
                 alts.append('%s %s %s%s' % (n, op, nxt, al))
@@ -475,7 +491,8 @@ def gen_expr(rng, gb):
     if rng.random() < 0.8:
         alts.append('%s %s %s' % (gb.lit('('), names[0], gb.lit(')')))
     if rng.random() < 0.6:
-        alts.append('%s %s -> neg' % (gb.lit('~'), atom))
+        # the prefix operator often re-uses the literal of a binary operator (unary / binary minus)
+        alts.append('%s %s -> neg' % (gb.lit(rng.choice(['~', ops[0], ops[-1]])), atom))
     if rng.random() < 0.6:
         alts.append('%s %s _args %s -> call' % (gb.lit('@'), gb.name(), gb.lit(']')))
         sep = gb.lit(',')
@@ -506,6 +523,35 @@ def gen_stmt(rng, gb, expr):
     rng.shuffle(alts)
     gb.rule(mod(rng, 'stmt', ('', '', '?')), alts)
     return 'stmt'
+
+
+def gen_prog(rng, gb):
+    """programs: a sequence of items of several kinds over one expression rule - bracketed headers, statements
+    made of an expression followed by juxtaposed operands, assignments, keyword statements with lists, blocks"""
+    expr = gen_expr(rng, gb)
+    kinds = rng.sample(['header', 'juxt', 'assign', 'kw', 'block'], rng.randint(2, 4))
+    semi = gb.lit(';')
+    alts = []
+    for k in kinds:
+        al = rng.choice(['', '', ' -> %s_' % k])
+        if k == 'header':
+            body = '%s %s %s' % (gb.lit('['), expr, gb.lit(']'))
+        elif k == 'juxt':
+            body = '%s atom%s %s' % (expr, rng.choice(['*', '*', '+']), semi)
+        elif k == 'assign':
+            body = '%s %s %s %s' % (gb.name(), gb.lit('='), expr, semi)
+        elif k == 'kw':
+            body = '%s %s (%s %s)* %s' % (gb.lit(rng.choice(['pr', 'ret', 'do'])), expr, gb.lit(','), expr, semi)
+        else:
+            body = '%s item* %s' % (gb.lit('{', 'named'), gb.lit('}'))
+        if rng.random() < 0.5:
+            gb.rule(mod(rng, k, ('', '', '!')), [body])
+            alts.append(k)
+        else:
+            alts.append(body + al)
+    rng.shuffle(alts)
+    gb.rule(rng.choice(['item', '?item']), alts)
+    return 'item'
 
 
 def gen_json(rng, gb):
@@ -544,6 +590,16 @@ def gen_guarded(rng, gb, wide):
     for r in rn:
         alts_of[r] = [next(gi) for _ in range(rng.randint(1, 3))]
         first[r] = set(alts_of[r])
+    seps = []
+
+    def pick_sep():
+        # separators and closers may be shared between rules: the same literal is then kept in a !rule and
+        # filtered in an ordinary one
+        if seps and rng.random() < 0.4:
+            return rng.choice(seps)
+        sp = next(gi)
+        seps.append(sp)
+        return sp
     for r in rn:
         pr = ('_' + r) if mods[r] == '_' else r
         alts = []
@@ -571,15 +627,15 @@ def gen_guarded(rng, gb, wide):
                 elif o < 0.40:
                     e = '[%s]' % e
                 elif o < 0.5:
-                    sp = next(gi)
+                    sp = pick_sep()
                     e = '(%s %s)*' % (e, gb.lit(sp))
                 elif o < 0.56:
-                    sp = next(gi)
+                    sp = pick_sep()
                     e = '%s (%s %s)*' % (e, gb.lit(sp), e)
                 seq.append((e, f))
             # close every alternative that does not end in a plain token, so that what follows cannot be absorbed
             if len(seq) > 1 and not re.match(r'^[A-Z_"]', seq[-1][0][-1:] if seq[-1][0][-1:] in '*+?])' else 'x'):
-                seq.append((gb.lit(next(gi)), set()))
+                seq.append((gb.lit(pick_sep()), set()))
             out = []
             for k, (e, f) in enumerate(seq):
                 out.append(e)
@@ -598,7 +654,7 @@ def gen_guarded(rng, gb, wide):
 
 def gen_grammar(rng, wide=False):
     gb = GB(rng, literal_only=(rng.random() < 0.12))
-    fam = rng.choice(['expr', 'expr', 'stmt', 'json', 'guard', 'guard', 'guard'])
+    fam = rng.choice(['expr', 'expr', 'stmt', 'json', 'prog', 'prog', 'guard', 'guard', 'guard'])
     if fam == 'expr':
         top = gen_expr(rng, gb)
         gb.rule('start', [rng.choice([top, '%s (%s %s)*' % (top, gb.lit(';'), top)])])
@@ -609,6 +665,9 @@ def gen_grammar(rng, wide=False):
     elif fam == 'json':
         top = gen_json(rng, gb)
         gb.rule('start', [top])
+    elif fam == 'prog':
+        top = gen_prog(rng, gb)
+        gb.rule('start', ['%s+' % top])
     else:
         top = gen_guarded(rng, gb, wide)
         gb.rule('start', [rng.choice([top, '%s+' % top, '%s %s' % (top, gb.lit('end'))])])
@@ -690,6 +749,56 @@ def has_ambig(t):
 
 # ----------------------------------------------------------------------------------------------------
 # one grammar -> case
+def mixed_literal(ms):
+    """does one reconstruction use the same terminal both filtered (re-inserted) and kept (a !rule)?"""
+    seen = {}
+
+    def walk(u):
+        if u[0] == 'U':
+            for nm, is_term, fo in u[2]:
+                if is_term:
+                    seen.setdefault(nm, set()).add(fo)
+            for a in u[3]:
+                walk(a)
+    for m in ms:
+        walk(m[1])
+    return any(len(v) == 2 for v in seen.values())
+
+
+def judge(p0, parsers, kind0, pbasic, tx, snap, items, text, exc):
+    """the property's oracle on one reconstruct() result -> (verdict or None, relex_ok)"""
+    import lark
+    # H_relex (hypothesis of C19_text): the joined text lexes back to the written tokens.  Where it fails the
+    # input is an instance of finding F12 (adjacent tokens merge) and is outside the class of the main stream.
+    relex_ok = True
+    if exc is None and pbasic is not None:
+        try:
+            lexed = [(str(t.type), str(t)) for t in pbasic.lex(text)]
+            relex_ok = len(lexed) == len(items) and all(v == w for (_, v), w in zip(lexed, items))
+        except lark.exceptions.LarkError:
+            relex_ok = False
+        if not relex_ok and text != ref_join(items):
+            relex_ok = True     # not an F12 instance: the text is not what the documented spacing rule gives
+    verdict = None
+    if exc is not None:
+        verdict = 'reconstruct raised %s' % exc
+    else:
+        try:
+            t2 = p0.parse(text)
+            if snap_tree(t2) != snap:
+                verdict = 're-parse gives a different tree'
+        except lark.exceptions.LarkError as e:
+            verdict = 're-parse raised %s' % type(e).__name__
+    if 'earley' in parsers and kind0 != 'earley' and exc is None and verdict is None:
+        # the other engine must agree on the round trip as well
+        try:
+            if snap_tree(parsers['earley'].parse(text)) != snap_tree(parsers['earley'].parse(tx)):
+                verdict = 'earley: re-parse gives a different tree'
+        except lark.exceptions.LarkError as e:
+            verdict = 'earley: re-parse raised %s' % type(e).__name__
+    return verdict, relex_ok
+
+
 def build_case(ctx, rng, gtext, nsent, stream, wide=False, fixed_inputs=None, kinds=('lalr', 'earley')):
     """returns dict(case=coq term or None, meta=..., violations=[...]) ; never raises for grammar errors"""
     import lark
@@ -751,6 +860,20 @@ def build_case(ctx, rng, gtext, nsent, stream, wide=False, fixed_inputs=None, ki
             if len(texts) >= nsent:
                 break
     unamb = True
+    hist = []          # texts already reconstructed by THIS Reconstructor (the object is reused, as an application would)
+    accepted = []      # (text, tree snapshot, reconstructed text) of pass 1
+    final_rules = d_rules
+    if fixed_inputs is None and len(texts) >= 2:
+        # longer inputs in which several node kinds occur: concatenations that the grammar accepts
+        for _ in range(2):
+            k = rng.randint(2, min(4, len(texts)))
+            cat = ' '.join(rng.sample(texts, k))
+            if len(cat.split()) <= 70 and cat not in texts:
+                try:
+                    p0.parse(cat)
+                    texts.insert(rng.randrange(len(texts) + 1), cat)
+                except lark.exceptions.LarkError:
+                    pass
     for tx in texts:
         try:
             tree = p0.parse(tx)
@@ -768,6 +891,11 @@ def build_case(ctx, rng, gtext, nsent, stream, wide=False, fixed_inputs=None, ki
                 continue
         snap = snap_tree(tree)
         ms, items, text, exc = obs.run(tree)
+        # correspondence point: reconstructing must not change the derived rules (they were compared with the model)
+        now = obs.rules_now()
+        if now != final_rules and 'rules_mutated' not in res:
+            res['rules_mutated'] = dict(history=list(hist), text=tx)
+            final_rules = now
         if exc is None and pex is not None:
             # the grammar must be unambiguous on the reconstructed text as well (else the class hypothesis fails)
             try:
@@ -775,54 +903,66 @@ def build_case(ctx, rng, gtext, nsent, stream, wide=False, fixed_inputs=None, ki
                     amb = True
                     unamb = False
                     if not wide:
+                        hist.append(tx)
                         continue
             except lark.exceptions.LarkError:
                 pass
-        # H_relex (hypothesis of C19_text): the joined text lexes back to the written tokens.  Where it fails the
-        # input is an instance of finding F12 (adjacent tokens merge) and is outside the class of the main stream.
-        relex_ok = True
-        if exc is None and pbasic is not None:
-            try:
-                lexed = [(str(t.type), str(t)) for t in pbasic.lex(text)]
-                relex_ok = len(lexed) == len(items) and all(v == w for (_, v), w in zip(lexed, items))
-            except lark.exceptions.LarkError:
-                relex_ok = False
-            if not relex_ok and text != ref_join(items):
-                relex_ok = True     # not an F12 instance: the text is not what the documented spacing rule gives
-        # the property's own oracle
-        verdict = None
-        if exc is not None:
-            verdict = 'reconstruct raised %s' % exc
-        else:
-            try:
-                t2 = p0.parse(text)
-                if snap_tree(t2) != snap:
-                    verdict = 're-parse gives a different tree'
-            except lark.exceptions.LarkError as e:
-                verdict = 're-parse raised %s' % type(e).__name__
-        if 'earley' in parsers and kind0 != 'earley' and exc is None and verdict is None:
-            # the other engine must agree on the round trip as well
-            try:
-                if snap_tree(parsers['earley'].parse(text)) != snap_tree(parsers['earley'].parse(tx)):
-                    verdict = 'earley: re-parse gives a different tree'
-            except lark.exceptions.LarkError as e:
-                verdict = 'earley: re-parse raised %s' % type(e).__name__
+        verdict, relex_ok = judge(p0, parsers, kind0, pbasic, tx, snap, items, text, exc)
         if verdict and in_class and not amb and not relex_ok:
             ctx.count(stream + ':relex-fails(F12-class)', key=(gtext, tx), nontrivial=False)
         elif verdict and in_class and not amb:
-            res['viol'].append(dict(grammar=gtext, parser=kind0, text=tx, reconstructed=text, detail=verdict))
+            res['viol'].append(dict(grammar=gtext, parser=kind0, history=list(hist), text=tx, reconstructed=text,
+                                    detail=verdict))
         nins = sum(1 for m in ms for it in (m[2] or []) if it[0] == 's')
         ninl = sum(1 for m in ms for a in m[1][3] if a[0] == 'U') if ms else 0
         ctx.count(stream, key=(gtext, tx), nontrivial=(nins > 0 and ninl > 0 and exc is None),
                   tokens=min(len(tx.split()), 20), inserted=min(nins, 8), inlined_nodes=min(ninl, 8),
+                  literal_kept_and_filtered_in_one_tree=mixed_literal(ms), node_kinds=min(len({m[0][1] for m in ms}), 8),
                   outcome=('ok' if verdict is None else verdict.split(' raised')[0]))
         if exc is None:
             runs.append((snap, ms, items, text))
+        if not amb:
+            accepted.append((tx, tree, snap, text, exc, verdict))
+        hist.append(tx)
         res.setdefault('inputs', []).append((tx, verdict))
+    # pass 2: a second Reconstructor sees the same trees in another order.  The result for a tree must not depend on
+    # what the object reconstructed before (parsers are cached per node kind inside it), and the oracle must hold on
+    # every tree of this history as well.
+    for npass in range((1 + (rng.random() < 0.5)) if (len(accepted) >= 2 and fixed_inputs is None) else 0):
+        k = rng.randrange(1, len(accepted))
+        order = accepted[k:] + accepted[:k]          # another tree comes first
+        if npass:
+            rest = order[1:]
+            rng.shuffle(rest)
+            order = order[:1] + rest
+        try:
+            obs2 = Obs(p0)
+        except Exception:   # noqa
+            break
+        hist2 = []
+        for tx, _tree, snap, text1, exc1, verdict1 in order:
+            tree = p0.parse(tx)      # a fresh tree: the first pass rebuilt parts of the old one in place
+            ms, items, text, exc = obs2.run(tree)
+            now = obs2.rules_now()
+            if now != d_rules and 'rules_mutated' not in res:
+                res['rules_mutated'] = dict(history=list(hist2), text=tx)
+                final_rules = now
+            verdict, relex_ok = judge(p0, parsers, kind0, pbasic, tx, snap, items, text, exc)
+            ctx.count(stream + ':reordered', key=(gtext, tuple(hist2), tx), nontrivial=bool(hist2),
+                      outcome2=('ok' if verdict is None else verdict.split(' raised')[0]))
+            if verdict and in_class and relex_ok and verdict1 is None:
+                res['viol'].append(dict(grammar=gtext, parser=kind0, history=list(hist2), text=tx, reconstructed=text,
+                                        detail=verdict + ' (after the history; alone it round-trips)'))
+            elif (text, exc) != (text1, exc1) and in_class:
+                res.setdefault('history_dep', []).append(dict(grammar=gtext, parser=kind0, text=tx,
+                                                              history_a=[a[0] for a in accepted[:[a[0] for a in accepted].index(tx)]],
+                                                              out_a=text1, history_b=list(hist2), out_b=text))
+            hist2.append(tx)
+    d_rules = final_rules
     res['unambiguous'] = unamb
     res['in_class'] = in_class
     res['meta'] = dict(grammar=gtext, parser=kind0, inputs=[tx for tx, _ in res.get('inputs', [])],
-                       rules=len(rules), derived=len(d_rules))
+                       rules=len(rules), derived=len(d_rules), rules_mutated=res.get('rules_mutated'))
     try:
         res['case'] = c_case(rules, lits, d_rules, d_rfr, coq_cls, in_class and not wide, runs)
     except ValueError as e:
@@ -845,15 +985,22 @@ EXOTIC = [
 ]
 
 
-def roundtrip(gtext, text, kind='lalr'):
-    """the property's oracle on one input: None if it holds, else a description"""
+def roundtrip(gtext, text, kind='lalr', history=()):
+    """the property's oracle on one input, reconstructed by a Reconstructor that has already reconstructed the
+    trees of `history` (the object caches one matching parser per node kind): None if it holds, else a description"""
     import lark
     from lark.reconstruct import Reconstructor
     p = make_parser(gtext, kind)
+    rec = Reconstructor(p)
+    for h in history:
+        try:
+            with_timeout(20, rec.reconstruct, p.parse(h))
+        except Exception:   # noqa
+            pass
     t = p.parse(text)
     snap = snap_tree(t)
     try:
-        out = with_timeout(20, Reconstructor(p).reconstruct, t)
+        out = with_timeout(20, rec.reconstruct, t)
     except Exception as e:   # noqa
         return 'reconstruct raised %s' % type(e).__name__
     try:
@@ -862,6 +1009,50 @@ def roundtrip(gtext, text, kind='lalr'):
         return 're-parse of %r raised %s' % (out, type(e).__name__)
     if snap_tree(t2) != snap:
         return 're-parse of %r gives a different tree' % out
+    return None
+
+
+def search_history(rng, gtext, kind, texts, orders=4):
+    """failing-input search over histories: one Reconstructor per order of the texts -> (history, text, msg) or None"""
+    import lark
+    from lark.reconstruct import Reconstructor
+    try:
+        p = make_parser(gtext, kind)
+    except Exception:   # noqa
+        return None
+    good = []
+    for tx in texts:
+        try:
+            p.parse(tx)
+            good.append(tx)
+        except lark.exceptions.LarkError:
+            pass
+    for k in range(min(orders, max(1, len(good)))):
+        # every text is the first one of some order (which parsers exist when a node kind is first met depends on it)
+        order = good[k:] + good[:k]
+        if k % 2:
+            rest = order[1:]
+            rng.shuffle(rest)
+            order = order[:1] + rest
+        rec = Reconstructor(p)
+        hist = []
+        for tx in order:
+            t = p.parse(tx)
+            snap = snap_tree(t)
+            msg = None
+            try:
+                out = with_timeout(20, rec.reconstruct, t)
+                try:
+                    if snap_tree(p.parse(out)) != snap:
+                        msg = 're-parse of %r gives a different tree' % out
+                except lark.exceptions.LarkError as e:
+                    msg = 're-parse of %r raised %s' % (out, type(e).__name__)
+            except Exception as e:   # noqa
+                msg = 'reconstruct raised %s' % type(e).__name__
+            if msg:
+                # keep only genuine ones: alone (fresh object) the input must be fine or fail as well - both are failures
+                return list(hist), tx, msg
+            hist.append(tx)
     return None
 
 
@@ -893,7 +1084,7 @@ def lex_case(gtext, texts):
 def correspond(ctx):
     rng = ctx.rng
     lex_cases = []
-    n_class = ctx.scale(110, 700) * (3 if ctx.widen else 1)
+    n_class = ctx.scale(100, 700) * (3 if ctx.widen else 1)
     n_wide = ctx.scale(40, 250)
     cases, metas = [], []
     rejected = {}
@@ -912,6 +1103,13 @@ def correspond(ctx):
         accepted += 1
         for v in r['viol']:
             ctx.violation('roundtrip-oracle', v, True, v['detail'])
+        for hd in r.get('history_dep', [])[:1]:
+            if not r['viol'] and getattr(ctx, 'n_hdep', 0) < 3:
+                ctx.n_hdep = getattr(ctx, 'n_hdep', 0) + 1
+                ctx.violation('correspondence:history independence of Reconstructor.reconstruct',
+                              dict(no_longer_checks='the model reconstructs a tree as a function of the rules and the tree only',
+                                   **hd), False,
+                              'the same tree is reconstructed differently after different histories on one Reconstructor')
         if r['case']:
             cases.append(r['case'])
             metas.append(r['meta'])
@@ -972,27 +1170,46 @@ def correspond(ctx):
         ctx.violation('correspondence:coq-eval', {'error': e}, False, e[:300])
     already = any(v['found'] for v in ctx.violations if v.get('key') is None)
     if len(bad) > 4:
-        ctx.note('%d cases disagree with the model; the first 4 are analysed' % len(bad))
-    for i in bad[:4]:
+        ctx.note('%d cases disagree with the model; the first 4 are analysed, the others searched for a failing input (time-bounded)' % len(bad))
+    import time as _time
+    t_search = _time.time()
+    for n_bad, i in enumerate(bad):
         m = metas[i]
-        # which observation point? ask the model again for the verdict code of this case only
-        code, _ = ctx.coq_eval('c19_code_%d' % i, IMPORTS, 'check_case_code %s' % cases[i])
-        what = {'1': 'derived rules (TreeMatcher.rules / rules_for_root)', '2': 'class predicate',
-                '3': 'match_tree result / written items', '4': 'token sequence / text'}.get((code or '').strip(), 'case')
-        # search: does the round trip fail on any input of this grammar (wider sample)?
+        if n_bad >= 4 and (already or _time.time() - t_search > ctx.scale(120, 400)):
+            break
+        what = 'case'
+        if n_bad < 4:
+            # which observation point? ask the model again for the verdict code of this case only
+            code, _ = ctx.coq_eval('c19_code_%d' % i, IMPORTS, 'check_case_code %s' % cases[i])
+            what = {'1': 'derived rules (TreeMatcher.rules / rules_for_root)', '2': 'class predicate',
+                    '3': 'match_tree result / written items', '4': 'token sequence / text'}.get((code or '').strip(), 'case')
+            if m.get('rules_mutated'):
+                what += ' - TreeMatcher.rules changed while reconstructing %r after %r' % (
+                    m['rules_mutated']['text'], m['rules_mutated']['history'])
+        # search: does the round trip fail on an input of this grammar, alone or after a history of other inputs
+        # reconstructed by the same Reconstructor (wider sample, several orders)?
         found = None
-        for tx in ([] if already else list(m['inputs']) + more_inputs(ctx, m['grammar'], 30)):
-            try:
-                msg = roundtrip(m['grammar'], tx, m['parser'])
-            except Exception:   # noqa
-                continue
-            if msg:
-                found = (tx, msg)
-                break
+        if not already:
+            pool = list(m['inputs']) + more_inputs(ctx, m['grammar'], 30 if n_bad < 4 else 10)
+            for tx in pool if n_bad < 4 else []:
+                try:
+                    msg = roundtrip(m['grammar'], tx, m['parser'])
+                except Exception:   # noqa
+                    continue
+                if msg:
+                    found = ([], tx, msg)
+                    break
+            if not found:
+                try:
+                    cats = [' '.join(rng.sample(pool, min(len(pool), 3))) for _ in range(3)] if len(pool) >= 2 else []
+                    found = search_history(rng, m['grammar'], m['parser'], pool + cats, orders=8)
+                except Exception:   # noqa
+                    found = None
         if found:
-            ctx.violation('correspondence+oracle', dict(grammar=m['grammar'], parser=m['parser'], text=found[0],
-                                                        disagrees_at=what), True, found[1])
-        else:
+            already = True
+            ctx.violation('correspondence+oracle', dict(grammar=m['grammar'], parser=m['parser'], history=found[0],
+                                                        text=found[1], disagrees_at=what), True, found[2])
+        elif n_bad < 4:
             ctx.violation('correspondence:Recons model vs lark.tree_matcher/reconstruct: ' + what,
                           dict(no_longer_checks='model/implementation agreement: ' + what, grammar=m['grammar'],
                                parser=m['parser'], inputs=m['inputs']), False,
@@ -1046,6 +1263,6 @@ def replay(ctx, case):
     if 'grammar' not in w or 'text' not in w:
         return False
     try:
-        return roundtrip(w['grammar'], w['text'], w.get('parser', 'lalr')) is not None
+        return roundtrip(w['grammar'], w['text'], w.get('parser', 'lalr'), history=w.get('history') or ()) is not None
     except Exception:   # noqa
         return False
